@@ -226,7 +226,10 @@ class StatementInserter(ast.NodeTransformer, EmitterMixin):
             orig_body.pop(0)
             docstring = [fundef_copy_body.pop(0)]
         if len(orig_body) == 0:
-            return docstring
+            # nothing but a docstring and / or declarations: the invocation is an invocation all the same
+            with fast.location_of(fundef_copy):
+                orig_body = [fast.Pass()]
+                fundef_copy_body = [fast.Pass()]
         with fast.location_of((docstring + [fundef_copy])[0]):
             if self.handler_predicate_by_event[TraceEvent.after_function_execution](
                 node
